@@ -443,7 +443,8 @@ class Exec:
                 if isinstance(base, Opaque):
                     return self.opaque_field(base, vname, p[2], p[3], st)
                 raise NotEncoded(f'downcast field on {base!r}')
-            if isinstance(b, Agg) and b.kind == 'struct' and b.name == 'Box' and len(b.fields) == 1 and p[2] == 0 and 'Unique<' in str(p[3]):
+            if isinstance(b, Agg) and b.kind == 'struct' and b.name == 'Box' and len(b.fields) == 1 and p[2] == 0 and 'Unique<' in str(p[3]) \
+                    and not (isinstance(b.fields[0], Agg) and b.fields[0].name == 'Unique'):
                 # moving out of a Box (`*b`): MIR reads the pointer field `(b.0: Unique<T>).0: NonNull<T>` and transmutes it; our Box is the boxed value itself
                 f2, p2 = self.resolve_place(st, fid, p[1])
                 return Agg('struct', 'Unique', None, [Agg('struct', 'NonNull', None, [Ref(f2, ('field', p2, 0, '?'))])])
